@@ -7,7 +7,8 @@ Exact rational arithmetic; return_i = pnl_i / (avg_i * qmax_i) (documented).
   R1 sheet.pnl == sum(pnl_i)                                   (|diff| <= 1e-20 * (1 + |sum|))
   R2 win_rate  == #(return_i >= 0) / n ; None when n == 0      (|diff| <= 1e-20)
   R3 profit_factor == sum(winning returns) / |sum(losing returns)| with the conventions
-     None (no wins and no losses) / Decimal::MAX (no losses) / Decimal::MIN (no wins)   (relative 1e-18)
+     None (no wins and no losses) / Decimal::MAX (no losses) / Decimal::MIN (no wins)   (relative 1e-18
+     plus the rounding budget of 28-digit returns, which a tiny gross loss in the denominator magnifies)
 A case that contains a non-zero return below 1e-24 in magnitude is not judged on R2/R3 (the
 Decimal quotient may underflow to zero and the statement does not say how that is classified).
 """
@@ -16,6 +17,18 @@ import sys
 from fractions import Fraction as F
 
 DEC_MAX = F(79228162514264337593543950335)
+
+
+def rounding_budget(wins, losses, gw, gl, want):
+    """What 28-digit Decimal arithmetic may legitimately lose against exact rationals: every return is a Decimal
+    quotient (absolute error up to 1e-27 * max(1, |r|)), the errors add up in the two gross sums, and a tiny gross
+    loss in the denominator magnifies them: |gw'/gl' - gw/gl| <= (E_w + |gw/gl| * E_l) / (gl - E_l)."""
+    unit = F(1, 10**27)
+    e_w = sum((unit * max(1, abs(r)) for r in wins), F(0))
+    e_l = sum((unit * max(1, abs(r)) for r in losses), F(0))
+    if gl <= 2 * e_l:
+        return abs(want)  # the gross loss is itself within rounding of zero: the ratio carries no digits
+    return 2 * (e_w + abs(want) * e_l) / (gl - e_l) + unit * abs(want)
 
 
 def check(rec):
@@ -58,7 +71,7 @@ def check(rec):
         if abs(want) == DEC_MAX:
             if got != want:
                 return ("offline_profit_factor_convention_wrong", f"{who}: profit_factor={pf} expected {'MAX' if want > 0 else 'MIN'}")
-        elif abs(got - want) > F(1, 10**18) * (1 + abs(want)):
+        elif abs(got - want) > F(1, 10**18) * (1 + abs(want)) + rounding_budget(wins, losses, gw, gl, want):
             return ("offline_profit_factor_is_not_gross_wins_over_gross_losses", f"{who}: profit_factor={pf} expected {float(want)} (wins {float(gw)} losses {float(gl)})")
     return None
 
